@@ -100,6 +100,13 @@ def labelsFor (frames : List Frame) (gs : List Group) (g : Bytes) : Res (List By
   | [] => strsOf gs g LABELS
   | _ :: _ => .ok []
 
+/-- `if (hasParameter(group, name)) group.parameter_nonConst(name).set(...)`: DESCRIPTIONS and UNITS are optional in a file and
+    are kept up to date only where they exist (fix "optional text parameters") -/
+def modIfPresent (gs : List Group) (g p : Bytes) (gi : Nat) (f : Param → Param) : List Group :=
+  match gpIdx gs g p with
+  | .ok (_, i) => modParam gs gi i f
+  | _ => gs
+
 /-- POINT part of `c3d::updateParameters` (ezc3d.cpp:466-505) -/
 def updatePointParams (gs : List Group) (frames : List Frame) (newPoints : List Bytes) : Outcome (List Group) :=
   (gpIdx gs POINT FRAMES).andThen gs fun (gP, iFrames) =>
@@ -113,11 +120,9 @@ def updatePointParams (gs : List Group) (frames : List Frame) (newPoints : List 
     (gpIdx g1 POINT USED).andThen g1 fun (_, iUsed) =>
     let g2 := modParam g1 gP iUsed (·.setInts! [u64ToI32 ptNames.length])
     (gpIdx g2 POINT LABELS).andThen g2 fun (_, iL) =>
-    (gpIdx g2 POINT DESCRIPTIONS).andThen g2 fun (_, iD) =>
-    (gpIdx g2 POINT UNITS).andThen g2 fun (_, iU) =>
     let g3 := modParam g2 gP iL (·.setStrs! ptNames)
-    let g4 := modParam g3 gP iD (·.setStrs! (ptNames.map fun _ => []))
-    let g5 := modParam g4 gP iU (·.setStrs! (ptNames.map fun _ => mm))
+    let g4 := modIfPresent g3 POINT DESCRIPTIONS gP (·.setStrs! (ptNames.map fun _ => []))
+    let g5 := modIfPresent g4 POINT UNITS gP (·.setStrs! (ptNames.map fun _ => mm))
     .ok g5
   else .ok g1
 
@@ -131,19 +136,20 @@ def updateAnalogParams (gs : List Group) (frames : List Frame) (newAnalogs : Lis
     (gpIdx gs ANALOG USED).andThen gs fun (_, iUsed) =>
     let a1 := modParam gs gA iUsed (·.setInts! [u64ToI32 chNames.length])
     (gpIdx a1 ANALOG LABELS).andThen a1 fun (_, iL) =>
-    (gpIdx a1 ANALOG DESCRIPTIONS).andThen a1 fun (_, iD) =>
     let a2 := modParam a1 gA iL (·.setStrs! chNames)
-    let a3 := modParam a2 gA iD (·.setStrs! (chNames.map fun _ => []))
+    let a3 := modIfPresent a2 ANALOG DESCRIPTIONS gA (·.setStrs! (chNames.map fun _ => []))
     (gpIdx a3 ANALOG SCALE).andThen a3 fun (_, iS) =>
     ((atIdx a3 gA).bind fun g => (atIdx g.params iS).bind fun q => q.asFloat).andThen a3 fun scales =>
     let a4 := modParam a3 gA iS (·.setFloats! (scales ++ List.replicate (chNames.length - scales.length) 0x3F800000))
     (gpIdx a4 ANALOG OFFSET).andThen a4 fun (_, iO) =>
     ((atIdx a4 gA).bind fun g => (atIdx g.params iO).bind fun q => q.asInt).andThen a4 fun offs =>
     let a5 := modParam a4 gA iO (·.setInts! (offs ++ List.replicate (chNames.length - offs.length) 0))
-    (gpIdx a5 ANALOG UNITS).andThen a5 fun (_, iU) =>
-    ((atIdx a5 gA).bind fun g => (atIdx g.params iU).bind fun q => q.asString).andThen a5 fun units =>
-    let a6 := modParam a5 gA iU (·.setStrs! (units ++ List.replicate (chNames.length - units.length) V))
-    .ok a6
+    match gpIdx a5 ANALOG UNITS with
+    | .ok (_, iU) =>
+      ((atIdx a5 gA).bind fun g => (atIdx g.params iU).bind fun q => q.asString).andThen a5 fun units =>
+      let a6 := modParam a5 gA iU (·.setStrs! (units ++ List.replicate (chNames.length - units.length) V))
+      .ok a6
+    | _ => .ok a5
   else .ok gs
 
 /-- `c3d::updateParameters(newPoints, newAnalogs)` (ezc3d.cpp:458-560). -/
